@@ -51,8 +51,11 @@ def workdir(name: str) -> Path:
   return d
 
 
+DEFAULT_WORKERS = int(os.environ.get('VERIF_TLC_WORKERS', '16'))
+
+
 def _java(props: Dict[str, str] = None) -> List[str]:
-  cmd = ['java', '-XX:+UseParallelGC', '-Xmx8g']
+  cmd = ['java', '-XX:+UseParallelGC', '-Xmx' + os.environ.get('VERIF_TLC_XMX', '6g')]
   for k, v in (props or {}).items():
     cmd.append(f'-D{k}={v}')
   cmd += ['-cp', JARS, 'tlc2.TLC']
@@ -67,13 +70,14 @@ _RE_VIOL = re.compile(
 _RE_COV = re.compile(r'^<(\w+) line (\d+), col \d+ to line \d+, col \d+ of module (\w+)>: (\d+):(\d+)', re.M)
 
 
-def run(spec: str, cfg: str, *, name: Optional[str] = None, workers: int = 16,
+def run(spec: str, cfg: str, *, name: Optional[str] = None, workers: Optional[int] = None,
         timeout: int = 600, env: Optional[Dict[str, str]] = None,
         extra: Optional[List[str]] = None, coverage: bool = False,
         deadlock: bool = False, props: Optional[Dict[str, str]] = None,
         allow_violation: bool = False, cwd: Optional[Path] = None) -> TLCResult:
   """Runs TLC in model-checking mode on specs/<spec>.tla with specs/<cfg>."""
   name = name or f'{spec}-{Path(cfg).stem}'
+  workers = workers or DEFAULT_WORKERS
   meta = workdir('tlc/' + name)
   cmd = _java(props) + ['-workers', str(workers), '-metadir', str(meta),
                         '-noGenerateSpecTE', '-config', cfg]
@@ -277,7 +281,7 @@ _RE_NODE = re.compile(r'^(-?\d+) \[label="(.*)"(?:,style = filled)?\];?$')
 _RE_EDGE = re.compile(r'^(-?\d+) -> (-?\d+) \[label="(.*?)",')
 
 
-def dump_graph(spec: str, cfg: str, *, name: Optional[str] = None, workers: int = 16,
+def dump_graph(spec: str, cfg: str, *, name: Optional[str] = None, workers: Optional[int] = None,
                timeout: int = 600, env: Optional[Dict[str, str]] = None):
   """Exhaustive run with `-dump dot,actionlabels`.
 
@@ -314,3 +318,46 @@ def sany(spec: str) -> None:
   if p.returncode != 0 or 'Semantic errors' in p.stdout or 'Parse Error' in p.stdout \
      or 'Fatal errors' in p.stdout or '*** Errors' in p.stdout:
     raise TLCError(f'SANY rejects {spec}:\n{p.stdout[-3000:]}{p.stderr[-1000:]}')
+
+
+# ---------------------------------------------------------------------------
+# Observed-relation pattern: TLC exports a universe (+ reference answers) as JSON; the harness
+# evaluates the real functions on it; a second TLC run loads the observed relation and evaluates
+# the same TLA+ laws on it.
+
+import json as _json
+
+
+def export_json(spec: str, cfg: str, *, name: Optional[str] = None, env: Optional[Dict[str, str]] = None,
+                timeout: int = 600, workers: int = 1) -> Tuple[Any, TLCResult]:
+  """Runs a spec that contains `ASSUME JsonSerialize(IOEnv.OUT_FILE, ...)` and returns the JSON value."""
+  name = name or f'export-{spec}-{Path(cfg).stem}'
+  d = workdir('export/' + name)
+  out = d / 'out.json'
+  e = dict(env or {})
+  e['OUT_FILE'] = str(out)
+  r = run(spec, cfg, name=name, env=e, timeout=timeout, workers=workers)
+  data = _json.loads(out.read_text())
+  shutil.rmtree(d, ignore_errors=True)
+  return data, r
+
+
+def check_with_json(spec: str, cfg: str, obs: Any, *, name: Optional[str] = None,
+                    env: Optional[Dict[str, str]] = None, timeout: int = 900,
+                    workers: Optional[int] = None, var: str = 'OBS_FILE', ndjson: bool = False) -> TLCResult:
+  """Writes `obs` as JSON (or one JSON value per line), points IOEnv.<var> at it and runs TLC.
+
+  The result is returned even when a law is violated (r.ok False, r.violated, r.error_trace, r.prints)."""
+  name = name or f'laws-{spec}-{Path(cfg).stem}'
+  d = workdir('obs/' + name)
+  f = d / ('obs.ndjson' if ndjson else 'obs.json')
+  if ndjson:
+    f.write_text('\n'.join(_json.dumps(x) for x in obs) + '\n')
+  else:
+    f.write_text(_json.dumps(obs))
+  e = dict(env or {})
+  e[var] = str(f)
+  try:
+    return run(spec, cfg, name=name, env=e, timeout=timeout, workers=workers, allow_violation=True)
+  finally:
+    shutil.rmtree(d, ignore_errors=True)
